@@ -85,8 +85,8 @@ package metadata
 // (whose contract above is proved).
 //@ func (*metadataContext).New
 //@   property C11
-//@   at call Sort#1: after assume forall(i, 0, len(metadata.protocols) - 1, protoID(metadata.protocols[i]) <= protoID(metadata.protocols[i+1]))
-//@   at call Sort#1: after assume len(metadata.protocols) == len(t)
+//@   at call Sort: after assume forall(i, 0, len(metadata.protocols) - 1, protoID(metadata.protocols[i]) <= protoID(metadata.protocols[i+1]))
+//@   at call Sort: after assume len(metadata.protocols) == len(t)
 //@   ensures len(result.protocols) == len(t)
 //@   ensures forall(i, 0, len(result.protocols) - 1, protoID(result.protocols[i]) <= protoID(result.protocols[i+1]))
 //@   ensures result.mc == mc
@@ -94,10 +94,10 @@ package metadata
 //@ func (*Metadata).MarshalBinary
 //@   property C11
 //@   requires m != nil && allNonNil(m)
-//@   at call Sort#1: after assume allNonNil(m)
-//@   at call Sort#1: after assume forall(i, 0, len(m.protocols) - 1, protoID(m.protocols[i]) <= protoID(m.protocols[i+1]))
-//@   at call Sort#1: after assume len(m.protocols) == old(len(m.protocols))
-//@   at call MarshalBinary#1: assert forall(i, 0, len(m.protocols) - 1, protoID(m.protocols[i]) <= protoID(m.protocols[i+1]))
+//@   at call Sort: after assume allNonNil(m)
+//@   at call Sort: after assume forall(i, 0, len(m.protocols) - 1, protoID(m.protocols[i]) <= protoID(m.protocols[i+1]))
+//@   at call Sort: after assume len(m.protocols) == old(len(m.protocols))
+//@   at call MarshalBinary: assert forall(i, 0, len(m.protocols) - 1, protoID(m.protocols[i]) <= protoID(m.protocols[i+1]))
 //@   ensures result1 == nil ==> count("call:Sort") == 1
 
 // Decoder: the k-th transport is decoded from old(data)[read:], where read is
@@ -110,20 +110,20 @@ package metadata
 //@   loop 1: invariant m.mc == old(m.mc) && allNonNil(m)
 //@   loop 1: invariant len(old(data)) == 0 ==> len(m.protocols) == old(len(m.protocols))
 //@   loop 1: decreases len(data) - read
-//@   at call NewBuffer#1: assert suffix(arg0, old(data), read)
+//@   at call NewBuffer: assert suffix(arg0, old(data), read)
 // each transport reads from a bytes.Buffer over exactly the rest of the input (a Buffer, unlike a Reader,
 // lets a transport with an empty payload at the very end decode without io.EOF)
 //@   ghost rd := zero("*bytes.Buffer")
-//@   at call NewBuffer#1: after ghost rd := result
-//@   at call ReadFrom#1: assert typeis(arg1, "*bytes.Buffer") && payload(arg1) == rd
-//@   at call FromUvarint#1: assert suffix(arg0, old(data), read)
+//@   at call NewBuffer: after ghost rd := result
+//@   at call ReadFrom: assert typeis(arg1, "*bytes.Buffer") && payload(arg1) == rd
+//@   at call FromUvarint: assert suffix(arg0, old(data), read)
 //@   ensures result == nil && old(len(m.protocols)) == 0 ==> len(old(data)) > 0
 
 // ASSUMED: registered protocol factories return non-nil transports.
 //@ func (*metadataContext).newTransport
 //@   property C11
 //@   requires mc != nil
-//@   at call factory#1: after assume result != nil
+//@   at call factory: after assume result != nil
 //@   ensures result != nil
 
 // Unknown: the length prefix is checked before allocating.
@@ -185,12 +185,12 @@ package metadata
 //@ func (*GraphsyncFilecoinV1).ReadFrom
 //@   property C11
 //@   requires dtm != nil && r != nil
-//@   at call ReadUvarint#1: assert typeis(arg0, "*metadata.countingReader") && payload(arg0) == cr
-//@   at call Decode#1: assert typeis(arg2, "*metadata.countingReader") && payload(arg2) == cr
-//@   at call ReadUvarint#1: after assume 0 <= cr.readCount && cr.readCount <= 10 && (result1 == nil ==> 1 <= cr.readCount)
-//@   at call Decode#1: after assume 1 <= cr.readCount
-//@   at call NewBuilder#1: after assume result != nil
-//@   at call Unwrap#1: after assume typeis(result, "*metadata.GraphsyncFilecoinV1") && payload(result) != 0
+//@   at call ReadUvarint: assert typeis(arg0, "*metadata.countingReader") && payload(arg0) == cr
+//@   at call Decode: assert typeis(arg2, "*metadata.countingReader") && payload(arg2) == cr
+//@   at call ReadUvarint: after assume 0 <= cr.readCount && cr.readCount <= 10 && (result1 == nil ==> 1 <= cr.readCount)
+//@   at call Decode: after assume 1 <= cr.readCount
+//@   at call NewBuilder: after assume result != nil
+//@   at call Unwrap: after assume typeis(result, "*metadata.GraphsyncFilecoinV1") && payload(result) != 0
 //@   ensures-local result1 == nil ==> count("call:Decode") == 1
 
 //@ func (*countingReader).Read
@@ -208,7 +208,7 @@ package metadata
 //@ func (Metadata).Equal
 //@   property C11
 //@   requires forall(i, 0, len(m.protocols), m.protocols[i] != nil) && forall(i, 0, len(other.protocols), other.protocols[i] != nil)
-//@   at call protocolEqual#1: assert arg0 == m.protocols[rangeindex] && arg1 == other.protocols[rangeindex]
+//@   at call protocolEqual: assert arg0 == m.protocols[rangeindex] && arg1 == other.protocols[rangeindex]
 //@   loop 1: invariant rangeindex < len(m.protocols) && len(m.protocols) == len(other.protocols)
 //@   loop 1: exhaustive
 //@   loop 1: iteration ensures itercount("call:protocolEqual") == 1
